@@ -6,6 +6,7 @@ of a local is the join over all its definitions (N absorbs)."""
 import re
 
 from .cfg import graph
+from .facts import strip_generics as strip
 
 B_CALLS = re.compile(r"^core::str::len$|^alloc::string::String::len$|^core::char::methods::len_utf8$|"
                      r"^core::str::(find|rfind)$|floor_char_boundary$|ceil_char_boundary$")
@@ -50,6 +51,19 @@ def classify(fn):
                     n = t[1].get("n") or ""
                     if B_CALLS.search(n):
                         c = "B"
+                    elif re.search(r"^core::option::Option::(map_or|unwrap_or)$", n):
+                        # `opt.map_or(B, B-producing fn)` / `opt.unwrap_or(B)`
+                        parts = []
+                        for a in t[2][1:]:
+                            if a[0] == "k" and "fn" in a[1]:
+                                parts.append("B" if B_CALLS.search(strip(a[1].get("r") or a[1]["fn"])) else "N")
+                            else:
+                                parts.append(op_class(a))
+                        if n.endswith("unwrap_or"):
+                            parts.append(op_class(t[2][0]))
+                        c = "B" if parts and all(x == "B" for x in parts) else ("?" if "?" in parts and "N" not in parts else "N")
+                    elif re.search(r"^core::option::Option::map$", n) and len(t[2]) > 1 and t[2][1][0] == "k" and "fn" in t[2][1][1]:
+                        c = "B" if B_CALLS.search(strip(t[2][1][1].get("r") or t[2][1][1]["fn"])) else "N"
                     elif (t[1].get("dn") or "") in ("core::ops::deref::Deref::deref", "core::clone::Clone::clone") and t[2]:
                         c = op_class(t[2][0])
                     else:
